@@ -278,6 +278,7 @@ func VerifC14RA(optsel int) {
 	src := verifAddr16(b, 14+8)
 	smac := make([]byte, 6)
 	copy(smac, b[6:12])
+	verifTagInput(b) // C10: nothing the handler or the session keeps may point into the frame buffer
 	frame, err := s.Parse(b)
 	if err != nil || frame.PayloadID != packet.PayloadICMP6 {
 		return
@@ -349,4 +350,5 @@ func VerifC14RA(optsel int) {
 		}
 	}
 	verifNoInputAlias(h, "C10:icmp6-handler-retains-packet-buffer")
+	verifNoInputAlias(s, "C10:session-retains-packet-buffer-after-ra")
 }
